@@ -148,6 +148,7 @@ var seedExpectations = []seedExpect{
 	{"if-block-dropped", "C02", "spirv.blockstate", "emitIf"},
 	{"type-bytext", "C15", "type.bytext", "writeFunctionBody"},
 	{"template-close", "C08", "template.close", "typeSpec"},
+	{"type-error-dropped", "C11", "errflow.nilonly", "lowerLocalConst"},
 }
 
 // overlayFromPatch materialises the files a unified diff touches, patches
